@@ -835,4 +835,143 @@ theorem nodeRev_none_inner {S : Schema} (K : KeyOrder S) {s : Nat} {f : Flags} {
       rw [h1]
       exact normN_setKids_inner hxt hnorm
 
+theorem listRev_nil (S : Schema) : ListRevSpec S [] := by
+  intro n hp inh L leading _ hgL _
+  have hdk : dk S leading [] = [] := by cases leading <;> simp [dk, noKeys]
+  refine ⟨[], rfl, rfl, rfl, rfl, L, by rw [hdk]; rfl, hgL, rfl, fun _ _ _ => rfl, ?_⟩
+  intro X hgX _ _
+  exact ⟨X, by rw [hdk]; rfl, hgX, rfl, fun _ _ _ => rfl, by rw [hdk]; intro c hc; cases hc⟩
+
+theorem matchP_false_symm {S : Schema} (K : KeyOrder S) {x y : DNode} (hx : Dom S x) (hy : Dom S y)
+    (h : matchP S x y = false) : matchP S y x = false := by
+  rw [matchP_symm K hy hx]
+  exact h
+
+/-- a sibling list of diff nodes: the first node, then the rest on what the first node left -/
+theorem listRev_cons {S : Schema} (K : KeyOrder S) {c : DNode} {cs : List DNode} (hc : NodeRevSpec S c)
+    (hcs : ListRevSpec S cs) : ListRevSpec S (c :: cs) := by
+  intro n hp inh L leading hh hgL hex
+  have hhc : c.height ≤ n := Nat.le_trans (Nat.le_max_left ..) hh
+  have hhcs : heightL cs ≤ n := Nat.le_trans (Nat.le_max_right ..) hh
+  by_cases hlk : (leading && S.isKey c.sid) = true
+  · -- a leading list key: not part of the diff
+    simp only [Bool.and_eq_true] at hlk
+    obtain ⟨rfl, hk⟩ := hlk
+    have hex' : exactK S inh L true cs = true := by
+      unfold exactK at hex
+      simpa [hk] using hex
+    obtain ⟨R, hR, hRh, hRe, hRk, L1, hL1, hgL1, hkL1, hloc1, hback⟩ := hcs n hp inh L true hhcs hgL hex'
+    have hkr : S.isKey (revDup c).sid = true := by simpa using hk
+    refine ⟨revDup c :: R, ?_, ?_, ?_, ?_, L1, ?_, hgL1, hkL1, ?_, ?_⟩
+    · exact revL_cons (revNode_key hkr) hR
+    · simp [heightL, height_revDup, hRh]
+    · rw [dk_cons_key hkr, dk_cons_key hk]
+      exact hRe
+    · rw [keysOf_cons_key hkr, keysOf_cons_key hk]
+      simp [normL, normN_revDup, hRk]
+    · rw [dk_cons_key hk]
+      exact hL1
+    · rw [dk_cons_key hk]
+      exact hloc1
+    · rw [dk_cons_key hk, dk_cons_key hkr]
+      exact hback
+  · -- a diff node
+    have hex' := hex
+    unfold exactK at hex'
+    simp only [hlk, Bool.false_eq_true, ↓reduceIte, Bool.and_eq_true] at hex'
+    obtain ⟨⟨⟨hE, hkb⟩, hdist⟩, hrest⟩ := hex'
+    obtain ⟨hd, hm, hk⟩ := exactE_base hE
+    have hkbL : KeysBelow S c L := by
+      intro k hkm
+      have := List.all_eq_true.mp hkb k hkm
+      simpa using this
+    have hdkD : dk S leading (c :: cs) = c :: cs := dk_cons_nokey hk leading
+    have hdcs : ∀ c' ∈ cs, Dom S c' ∧ matchP S c c' = false := by
+      intro c' hc'
+      have h1 := exactK_mem false cs hrest c' (by simpa [dk] using hc')
+      have h2 := List.all_eq_true.mp hdist c' hc'
+      exact ⟨(exactE_base h1.1).1, by simpa using h2⟩
+    have hge : ∀ x, look S L c = some x → goodN S x = true := fun x hx =>
+      ((goodL_iff K).mp (goodT_goodL hgL)).2 x (look_mem hx).1
+    obtain ⟨c', hrev, hch, hcs', hmatch, hfwd⟩ := hc n hp inh (look S L c) hhc hge hE
+    obtain ⟨L', ha, hgL', hkL', hlocL', hrestores⟩ := hfwd L hgL hkbL rfl
+    have hexcs : exactK S inh L' false cs = true := by
+      rw [exactK_congr hkL' false cs (fun c'' hc'' => hlocL' c'' (hdcs c'' hc'').1 (hdcs c'' hc'').2)]
+      exact hrest
+    obtain ⟨R, hR, hRh, hRe, hRk, L1, hL1, hgL1, hkL1, hloc1, hback⟩ := hcs n hp inh L' false hhcs hgL' hexcs
+    have hdk0 : dk S false cs = cs := by simp [dk]
+    have hdkR0 : dk S false R = R := by simp [dk]
+    rw [hdk0] at hL1 hloc1 hback
+    rw [hdkR0] at hback
+    have hkc' : S.isKey c'.sid = false := by rw [hcs']; exact hk
+    have hdkR : dk S leading (c' :: R) = c' :: R := dk_cons_nokey hkc' leading
+    refine ⟨c' :: R, revL_cons hrev hR, ?_, ?_, ?_, L1, ?_, hgL1, hkL1.trans hkL', ?_, ?_⟩
+    · simp [heightL, hch, hRh]
+    · rw [hdkR, hdkD]
+      rfl
+    · rw [keysOf_cons_nokey hkc', keysOf_cons_nokey hk]
+    · rw [hdkD, applyF_cons, ha]
+      exact hL1
+    · rw [hdkD]
+      intro q hq hall
+      rw [hloc1 q hq (fun c'' hc'' => hall c'' (List.mem_cons_of_mem _ hc'')),
+        hlocL' q hq (hall c (List.mem_cons_self ..))]
+    · rw [hdkD, hdkR]
+      intro X hgX hkX hlX
+      -- the first reversed node on X
+      have hcL1 : look S L1 c = look S L' c :=
+        hloc1 c hd (fun c'' hc'' => matchP_false_symm K hd (hdcs c'' hc'').1 (hdcs c'' hc'').2)
+      have hkbX : KeysBelow S c X := by rw [KeysBelow, hkX]; exact hkbL
+      obtain ⟨X', hb, hgX', hkX', hlocX', hresX⟩ := hrestores X hgX hkbX
+        ((hlX c (List.mem_cons_self ..)).trans hcL1)
+      -- the other reversed nodes on what it left
+      obtain ⟨X2, hX2, hgX2, hkX2, hloc2, hres2⟩ := hback X' hgX' (hkX'.trans (hkX.trans hkL'.symm))
+        (fun c'' hc'' => (hlocX' c'' (hdcs c'' hc'').1 (hdcs c'' hc'').2).trans (hlX c'' (List.mem_cons_of_mem _ hc'')))
+      refine ⟨X2, ?_, hgX2, hkX2.trans hkX', ?_, ?_⟩
+      · rw [applyF_cons, hb]
+        exact hX2
+      · intro q hq hall
+        rw [hloc2 q hq (fun c'' hc'' => hall c'' (List.mem_cons_of_mem _ hc'')),
+          hlocX' q hq (hall c (List.mem_cons_self ..))]
+      · intro c'' hc''
+        rcases List.mem_cons.mp hc'' with rfl | hc''
+        · rw [hloc2 c'' hd (fun c3 hc3 => matchP_false_symm K hd (hdcs c3 hc3).1 (hdcs c3 hc3).2)]
+          exact hresX
+        · rw [hres2 c'' hc'', hlocL' c'' (hdcs c'' hc'').1 (hdcs c'' hc'').2]
+
+mutual
+/-- every exact diff node is reversed correctly -/
+theorem nodeRev {S : Schema} (K : KeyOrder S) : ∀ c : DNode, NodeRevSpec S c
+  | .inner s f m ks => by
+    intro n hp inh e hh hge hex
+    cases hop : effOp inh (.inner s f m ks) with
+    | none =>
+      simp only [exactE, hop, Bool.and_eq_true] at hex
+      cases e <;> simp at hex
+    | some o =>
+      cases o with
+      | create => exact nodeRev_create K hh hex hop
+      | delete => exact nodeRev_delete K hh hex hop
+      | replace =>
+        simp only [exactE, hop, Bool.and_eq_true] at hex
+        cases e <;> simp at hex
+      | none => exact nodeRev_none_inner K (listRev K ks) hh hge hex hop
+  | .term s f m v => by
+    intro n hp inh e hh _ hex
+    cases hop : effOp inh (.term s f m v) with
+    | none =>
+      simp only [exactE, hop, Bool.and_eq_true] at hex
+      cases e <;> simp at hex
+    | some o =>
+      cases o with
+      | create => exact nodeRev_create K hh hex hop
+      | delete => exact nodeRev_delete K hh hex hop
+      | replace => exact nodeRev_replace K hh hex hop
+      | none => exact nodeRev_none_term K hh hex hop rfl
+/-- every exact sibling list of diff nodes is reversed correctly -/
+theorem listRev {S : Schema} (K : KeyOrder S) : ∀ D : List DNode, ListRevSpec S D
+  | [] => listRev_nil S
+  | c :: cs => listRev_cons K (nodeRev K c) (listRev K cs)
+end
+
 end LyModel.Diff
